@@ -15,6 +15,29 @@ type TimedShape struct {
 	MaxN int
 }
 
+// drawCut draws one healed partition: at an absolute instant, or triggered by an event of a drawn
+// node (right before its k-th timeout / right after its k-th broadcast), isolating that node or a drawn subset.
+func drawCut(r sim.Src, ids, n int, tpb time.Duration, maxAt, maxDurQuarters int) []sim.Sched {
+	var set []int
+	mask := 1 + r.Intn("cutmask", (1<<uint(min(ids, 8)))-2)
+	for i := 0; i < ids; i++ {
+		if mask&(1<<uint(i%8)) != 0 {
+			set = append(set, i)
+		}
+	}
+	dur := tpb * time.Duration(1+r.Intn("cutdur", maxDurQuarters)) / 4
+	if r.Intn("cuttrig", 2) == 0 {
+		at := tpb * time.Duration(r.Intn("cutat", maxAt)) / 10
+		return []sim.Sched{{At: at, Kind: "cut", Set: set}, {At: at + dur, Kind: "heal"}}
+	}
+	x := r.Intn("trignode", n)
+	if r.Intn("trigsolo", 3) > 0 {
+		set = []int{x} // the node whose event triggers the cut is the one cut off
+	}
+	kind := []string{"before-timeout", "after-broadcast"}[r.Intn("trigkind", 2)]
+	return []sim.Sched{{Kind: "cut", Set: set, Trig: kind, TrigNode: x, TrigCount: 1 + r.Intn("trigcount", 5), Dur: dur, KeepInFlight: r.Intn("keepflight", 2) == 0}}
+}
+
 func drawEpoch(r sim.Src) time.Time {
 	// clocks decades apart, not aligned to the increment
 	base := []int64{1_704_067_200, 946_684_800, 4_102_444_800, 1_000_000_000}[r.Intn("epochbase", 4)]
@@ -143,8 +166,12 @@ func RunTimedWorld(r sim.Src, mons []*sim.Mon, keepLog bool, sh TimedShape) *sim
 		o.InitialTxs = r.Intn("inittx", 3)
 		o.Horizon = 1 << 62
 		o.HealBound = true
-		fam := r.Intn("family", 3)
+		fam := r.Intn("family", 4)
 		if sh.Kind == "c13" {
+			fam = 0
+		}
+		silentAndCut := fam == 3 // (iv) silent validators AND a healed partition of some of the live ones
+		if silentAndCut {
 			fam = 0
 		}
 		switch fam {
@@ -194,17 +221,12 @@ func RunTimedWorld(r sim.Src, mons []*sim.Mon, keepLog bool, sh TimedShape) *sim
 			if o.Heights > 1 {
 				maxView = -1
 			}
-		case 1: // any subset cut off at a drawn instant for a drawn duration, then healed
-			at := tpb * time.Duration(r.Intn("cutat", 40)) / 10
-			dur := tpb * time.Duration(1+r.Intn("cutdur", 60)) / 2
-			var set []int
-			mask := 1 + r.Intn("cutmask", (1<<uint(min(ids, 8)))-2)
-			for i := 0; i < ids; i++ {
-				if mask&(1<<uint(i%8)) != 0 {
-					set = append(set, i)
-				}
+			if silentAndCut {
+				maxView = -1
+				o.Plan = append(o.Plan, drawCut(r, ids, n, tpb, 90, 40)...)
 			}
-			o.Plan = append(o.Plan, sim.Sched{At: at, Kind: "cut", Set: set}, sim.Sched{At: at + dur, Kind: "heal"})
+		case 1: // any subset cut off at a drawn instant (or at a drawn event) for a drawn duration, then healed
+			o.Plan = append(o.Plan, drawCut(r, ids, n, tpb, 40, 120)...)
 		default: // crash + amnesia restart of one validator
 			id := r.Intn("crashid", n)
 			if r.Intn("crashprimary", 2) == 0 {
@@ -239,6 +261,9 @@ func RunTimedWorld(r sim.Src, mons []*sim.Mon, keepLog bool, sh TimedShape) *sim
 	for _, s := range o.Plan {
 		if s.Kind == "cut" {
 			w.Stat("family_cut")
+			if s.Trig != "" {
+				w.Stat("family_triggered_cut")
+			}
 		}
 		if s.Kind == "crash" {
 			w.Stat("family_restart")
